@@ -1,1 +1,24 @@
-fn main() { caoverif::hello(); }
+use caoverif::runner::{run_engine, Opts};
+
+fn main() {
+    let args: Vec<String> = std::env::args().collect();
+    if args.len() < 2 {
+        eprintln!("usage: worker <engine> [options]");
+        std::process::exit(64);
+    }
+    let opts = Opts::from_args(&args[2..]);
+    let code = match args[1].as_str() {
+        "hashmap" => {
+            let mut e = caoverif::e_hashmap::HashMapEngine::default();
+            e.avoid_zero_hash = opts.x("avoid-zero-hash").is_some();
+            run_engine(&mut e, &opts)
+        }
+        "handletable" => run_engine(&mut caoverif::e_handletable::HandleTableEngine::default(), &opts),
+        "stacks" => run_engine(&mut caoverif::e_stacks::StacksEngine::default(), &opts),
+        other => {
+            eprintln!("unknown engine {other}");
+            64
+        }
+    };
+    std::process::exit(code);
+}
